@@ -53,3 +53,15 @@ def random_value(b0, rest, s, exact):
     """value of Integer.random(bits): n = ceil(bits/8) bytes are read; the first byte b0 is masked to its s = bits - 8*(n-1)
     low bits (top bit forced for exact_bits), the other n-1 tape bytes `rest` are used as they are; big-endian"""
     return random_top(b0, s, exact) * pow2(8 * len(rest)) + be(rest)
+
+
+# ---- lemmas (statement = the Contract registered in contracts/_intcommon.py add_lemmas; proved by their own unit)
+
+def lemma_radix_lt(a, b, c, d):
+    """0 <= a < d and 0 <= b < c  ==>  0 <= a*c + b < d*c"""
+    return True
+
+
+def lemma_radix_ge(a, b, c, d):
+    """a >= d, b >= 0, c >= 0  ==>  a*c + b >= d*c"""
+    return True
